@@ -9,7 +9,7 @@ MODULES = ["Helios.Props.C12"]
 THEOREMS = ["Helios.Locks.lockset_sound", "Helios.Locks.lockorder_sound",
             "Helios.Facts.lock_analysis_clean", "Helios.Facts.accesses_guarded",
             "Helios.Facts.lock_classes_ranked", "Helios.Facts.lock_order_ranked",
-            "Helios.Facts.no_callback_under_lock", "Helios.Facts.caller_releases_known",
+            "Helios.Facts.no_callback_under_lock", "Helios.Facts.no_wait_under_lock", "Helios.Facts.no_shared_guarded_returns", "Helios.Facts.caller_releases_known",
             "Helios.Facts.sync_literals_known", "Helios.Facts.init_writers_called_from_init"]
 STRATEGIES = ["round_robin", "least_connections", "weighted_round_robin", "ip_hash", "ip_hash_consistent"]
 
@@ -132,6 +132,15 @@ def check(ctx):
                                   "lock_classes": rows.split("def lockClasses")[1].split("\n")[0].count('"') // 2}
     except Exception:
         pass
+    if not ok and any(o[0].endswith("no_wait_under_lock") and not o[1] for o in ctx.obligations) and not found:
+        # something waits while holding a lock: look for the schedule in which the goroutine waited for needs that
+        # lock — the pool's own janitor goroutine against Shutdown (has to wait for the real 30 s tick)
+        rc, out = run_workload(ctx, lbb, "TestVerifTickShutdown", {}, timeout=120)
+        c = classify(rc, out)
+        if c:
+            found = True
+            C.violation(ctx, "workload-" + c[0], {"what": "Shutdown called while the pool's own janitor goroutine is inside a pass: " + c[0],
+                                                  "test": "TestVerifTickShutdown", "report": c[1], "static_diagnosis": diag[-3000:]})
     if not ok:
         C.violation(ctx, "proof", {"what": "a proof obligation of C12 no longer checks",
                                    "broken": [o for o in ctx.obligations if not o[1]],
